@@ -36,7 +36,8 @@ def interop_jws():
             if not ok2:
                 bad.append("joserfc->ref flattened %s" % name)
             # independent signer with odd header spellings -> joserfc
-            for text in (b'{ "alg" : "%s" ,\r\n "typ":"J\\u0057T" }' % alg.encode(), b'{"typ":"JWT","alg":"%s"}' % alg.encode(), b'{"alg":"%s","cty":"a\\/b"}' % alg.encode()):
+            for text in (b'{ "alg" : "%s" ,\r\n "typ":"J\\u0057T" }' % alg.encode(), b'{"typ":"JWT","alg":"%s"}' % alg.encode(), b'{"alg":"%s","cty":"a\\/b"}' % alg.encode(),
+                         b'{"alg":"%s","kid":"cl\xc3\xa9-\xe6\x9d\xb1\xe4\xba\xac"}' % alg.encode()):      # raw UTF-8 (RFC 7515: the header is UTF-8 JSON)
                 hdr = json.loads(text)
                 t2 = R.compact_sign(hdr, payload, jwk, header_text=text)
                 n += 1
